@@ -1,9 +1,139 @@
 import NmVerif.Proto
+import NmVerif.Index.Reduce
+/-
+  Driver handler of C08: answers `reduce` / `accumulate` / `remove_dims` / `reduction_slices` requests with the MODEL
+  (NmVerif.Reduce).  Element type `Int`; the binary op is selected by name.  Keys the harness needs to pick an API
+  entry point (`api=`, `kd=`, `ax=`, `dtype=`) do not change the model's answer and are ignored here.
+-/
 namespace NmVerif.Driver.C08
-open NmVerif NmVerif.Proto
+open NmVerif NmVerif.Proto NmVerif.Reduce
 
-def handle : Handler := fun op _args =>
+/-- order-revealing op of the protocol: `f(a,b) = 31·a + b (mod 2^32)` — neither commutative nor associative -/
+def f31 (a b : Int) : Int := (31 * a + b) % 4294967296
+
+def opOf : String → Option (Int → Int → Int)
+  | "f31" => some f31
+  | "add" => some (· + ·)
+  | "mul" => some (· * ·)
+  | "max" => some (fun a b => if a < b then b else a)
+  | "min" => some (fun a b => if b < a then b else a)
+  | "sub" => some (· - ·)
+  | "band" => some (fun a b => (Nat.land a.toNat b.toNat : Nat))
+  | "bor" => some (fun a b => (Nat.lor a.toNat b.toNat : Nat))
+  | "bxor" => some (fun a b => (Nat.xor a.toNat b.toNat : Nat))
+  | "land" => some (fun a b => if a ≠ 0 ∧ b ≠ 0 then 1 else 0)
+  | "lor" => some (fun a b => if a ≠ 0 ∨ b ≠ 0 then 1 else 0)
+  | _ => none
+
+def dataOf (a : Args) (s : Shape) : Option (List Int) :=
+  match a.get? "data" with
+  | none => some ((List.range (prod s)).map (fun k => ((k + 1 : Nat) : Int)))
+  | some v => parseInts v
+
+def fmtPairs (l : List (Nat × Nat)) : String :=
+  if l.isEmpty then "[]" else ";".intercalate (l.map (fun p => s!"{p.1},{p.2}"))
+
+/-- decimal text with 12 fractional digits (`toString` keeps 6 only); values here are far below 2^63 -/
+def fmtFloat (y : Float) : String :=
+  if y.isNaN then "nan"
+  else if y.isInf then (if y < 0 then "-inf" else "inf")
+  else
+    let a := y.abs
+    let ip := a.floor
+    let fp := ((a - ip) * 1000000000000.0).round
+    let (ip, fp) := if fp ≥ 1000000000000.0 then (ip + 1.0, 0.0) else (ip, fp)
+    let fs := toString fp.toUInt64
+    let pad := String.ofList (List.replicate (12 - fs.length) '0')
+    (if y < 0 then "-" else "") ++ toString ip.toUInt64 ++ "." ++ pad ++ fs
+
+def fmtFloats (l : List Float) : String :=
+  if l.isEmpty then "[]" else ",".intercalate (l.map fmtFloat)
+
+def handle : Handler := fun op a =>
   match op with
+  | "reduce" => orBad do
+      let f ← (a.get? "op").bind opOf
+      let s ← a.nats "shape"
+      let axis ← a.optInts "axis"
+      let keep := (a.get? "keepdims") == some "1"
+      let init ← a.optInt "init"
+      let data ← dataOf a s
+      let arr := arrOfData s data
+      match reduce f init arr axis keep with
+      | none => pure "ub"
+      | some v =>
+        match evalFlat v with
+        | none => pure "ub"
+        | some l => pure s!"ok shape={fmtNats v.shape} data={fmtInts l}"
+  | "accumulate" => orBad do
+      let f ← (a.get? "op").bind opOf
+      let s ← a.nats "shape"
+      let axis ← a.int "axis"
+      let data ← dataOf a s
+      let v := accumulate f (arrOfData s data) axis
+      match evalFlat v with
+      | none => pure "ub"
+      | some l => pure s!"ok shape={fmtNats v.shape} data={fmtInts l}"
+  | "mean" => orBad do
+      -- abstract ops instantiated with IEEE double: add = +, divn x n = x / n
+      let s ← a.nats "shape"
+      let axis ← a.optInts "axis"
+      let keep := (a.get? "keepdims") == some "1"
+      let data ← dataOf a s
+      let arr : Arr Float := ⟨s, fun i => Float.ofInt ((arrOfData s data).get i)⟩
+      match mean (· + ·) (fun x n => x / n.toFloat) arr axis keep with
+      | none => pure "ub"
+      | some v =>
+        match evalFlat v with
+        | none => pure "ub"
+        | some l => pure s!"ok shape={fmtNats v.shape} data={fmtFloats l}"
+  | "var" | "stddev" => orBad do
+      let s ← a.nats "shape"
+      let axis ← a.optInts "axis"
+      let keep := (a.get? "keepdims") == some "1"
+      let ddof := ((a.get? "ddof").bind (·.toNat?)).getD 0
+      let data ← dataOf a s
+      let arr : Arr Float := ⟨s, fun i => Float.ofInt ((arrOfData s data).get i)⟩
+      let sqabs := fun (x : Float) => x.abs * x.abs
+      let divn := fun (x : Float) (n : Nat) => x / n.toFloat
+      let r := if op == "var" then var (· + ·) (· - ·) sqabs divn arr axis ddof keep
+               else stddev (· + ·) (· - ·) sqabs Float.sqrt divn arr axis ddof keep
+      match r with
+      | none => pure "ub"
+      | some v =>
+        match evalFlat v with
+        | none => pure "ub"
+        | some l => pure s!"ok shape={fmtNats v.shape} data={fmtFloats l}"
+  | "vector_norm" => orBad do
+      let s ← a.nats "shape"
+      let axis ← a.optInts "axis"
+      let keep := (a.get? "keepdims") == some "1"
+      let ord ← a.nat "ord"
+      let data ← dataOf a s
+      let arr : Arr Float := ⟨s, fun i => Float.ofInt ((arrOfData s data).get i)⟩
+      let pre := fun (x : Float) => Float.pow x.abs ord.toFloat
+      let post := fun (y : Float) => Float.pow y (1.0 / ord.toFloat)
+      match vectorNorm (· + ·) pre post arr axis keep with
+      | none => pure "ub"
+      | some v =>
+        match evalFlat v with
+        | none => pure "ub"
+        | some l => pure s!"ok shape={fmtNats v.shape} data={fmtFloats l}"
+  | "remove_dims" => orBad do
+      let s ← a.nats "shape"
+      let axis ← a.optInts "axis"
+      let keep := (a.get? "keepdims") == some "1"
+      match removeDims s axis keep with
+      | none => pure "ub"
+      | some r => pure s!"ok {fmtNats r}"
+  | "reduction_slices" => orBad do
+      let s ← a.nats "shape"
+      let d ← a.nats "idx"
+      let axis ← a.optInts "axis"
+      let keep := (a.get? "keepdims") == some "1"
+      match reductionSlices d s axis keep with
+      | none => pure "ub"
+      | some r => pure s!"ok {fmtPairs r}"
   | _ => none
 
 end NmVerif.Driver.C08
